@@ -7,4 +7,5 @@ CONSTANTS
   CloseOnNilPayload = TRUE
   PooledBuffer = FALSE
   UEOFIsEnd = FALSE
+  ZeroCopyBuffer = FALSE
 CHECK_DEADLOCK FALSE
